@@ -29,9 +29,9 @@ from ..core import Prop
 
 compat.install()
 
-# repair-validation mode: the tree under test has patches/C03_D14_D27.diff, patch_D14b.diff (and patch_D17b.diff) applied;
-# the square bundles' insert / incorp / concat are driven with BLOCK-shaped operands against the repaired model
-# (Model/LabelMatRepair.lean), DenseSquareTaxaTraitMatrix keeps every bundle, and no known finding is consulted for them
+# repair-validation mode: the tree under test has patches/C03_D14.diff and patches/C03_D14b.diff applied; the square
+# bundles' insert / incorp / concat are driven with BLOCK-shaped operands against the repaired model
+# (Model/LabelMatRepair.lean) and no known finding is consulted for them
 REPAIRED = bool(os.environ.get("C03_REPAIRED"))
 
 NAN_CODE = -999999          # code of the NaN fill value of the square classes
@@ -141,13 +141,13 @@ CLASSES = {
     "DenseMolecularCoancestryMatrix": dict(mod="pybrops.popgen.cmat.DenseMolecularCoancestryMatrix", ndim=2,
                                            taxa=[0, 1], vrnt=[], trait=[], dtype="float64", square_check=True),
     "DenseSquareTaxaTraitMatrix": dict(mod="pybrops.core.mat.DenseSquareTaxaTraitMatrix", ndim=3,
-                                       taxa=[0, 1], vrnt=[], trait=[2], dtype="float64", pure_drops_other=True),
+                                       taxa=[0, 1], vrnt=[], trait=[2], dtype="float64"),
     # secondary entry points: concrete subclasses that inherit the anchored methods
     "DenseVanRadenCoancestryMatrix": dict(mod="pybrops.popgen.cmat.DenseVanRadenCoancestryMatrix", ndim=2,
                                           taxa=[0, 1], vrnt=[], trait=[], dtype="float64", square_check=True),
     "DenseTwoWayDHAdditiveGeneticVarianceMatrix": dict(
         mod="pybrops.model.vmat.DenseTwoWayDHAdditiveGeneticVarianceMatrix", ndim=3,
-        taxa=[0, 1], vrnt=[], trait=[2], dtype="float64", pure_drops_other=True),
+        taxa=[0, 1], vrnt=[], trait=[2], dtype="float64"),
     "DenseGenomicEstimatedBreedingValueMatrix": dict(
         mod="pybrops.popgen.bvmat.DenseGenomicEstimatedBreedingValueMatrix", ndim=2,
         taxa=[0], vrnt=[], trait=[1], dtype="float64", bv=True, kinds=["taxa"],
@@ -155,13 +155,13 @@ CLASSES = {
     # more than two square taxa axes (square_taxa_axes = range(ndim - 1)): N-D model, driver ops c03.nd_*
     "DenseSquareTaxaTraitMatrix@4": dict(mod="pybrops.core.mat.DenseSquareTaxaTraitMatrix",
                                          cls="DenseSquareTaxaTraitMatrix", ndim=4,
-                                         taxa=[0, 1, 2], vrnt=[], trait=[3], dtype="float64", pure_drops_other=True),
+                                         taxa=[0, 1, 2], vrnt=[], trait=[3], dtype="float64"),
     "DenseThreeWayDHAdditiveGeneticVarianceMatrix": dict(
         mod="pybrops.model.vmat.DenseThreeWayDHAdditiveGeneticVarianceMatrix", ndim=4,
-        taxa=[0, 1, 2], vrnt=[], trait=[3], dtype="float64", pure_drops_other=True),
+        taxa=[0, 1, 2], vrnt=[], trait=[3], dtype="float64"),
     "DenseFourWayDHAdditiveGenicVarianceMatrix": dict(
         mod="pybrops.model.vmat.DenseFourWayDHAdditiveGenicVarianceMatrix", ndim=5,
-        taxa=[0, 1, 2, 3], vrnt=[], trait=[4], dtype="float64", pure_drops_other=True),
+        taxa=[0, 1, 2, 3], vrnt=[], trait=[4], dtype="float64"),
     "DenseTaxaMatrix": dict(mod="pybrops.core.mat.DenseTaxaMatrix", ndim=2,
                             taxa=[0], vrnt=[], trait=[], dtype="float64"),
     "DenseVariantMatrix": dict(mod="pybrops.core.mat.DenseVariantMatrix", ndim=2,
@@ -187,7 +187,7 @@ def schema(cname):
     d = CLASSES[cname]
     return {"ndim": d["ndim"], "taxa": d["taxa"], "vrnt": d["vrnt"], "trait": d["trait"],
             "generic_self_call": False, "scalar_insert_raw": False, "square_check": bool(d.get("square_check")),
-            "pure_drops_other": bool(d.get("pure_drops_other")) and not REPAIRED}
+            "pure_drops_other": False}
 
 
 def is_square_k(cname, k):
@@ -896,8 +896,8 @@ class Gen:
                 dt = rng.choice(["int64", "int32", "int16", "uint8"])
                 if not (dt == "uint8" and (p < 0 or p > 255)):
                     return {"npint": p, "dtype": dt}
-            if self.ext_ins and rng.random() < 0.12:
-                return {"int0d": p}            # known defect D17b on a non-leading axis: keep it rare
+            if self.ext_ins and rng.random() < 0.2:
+                return {"int0d": p}            # a 0-d integer ndarray (wrapped like an integer since the repair of D17b)
             return {"int": p}
         if r < 0.75 or q == 0:
             p = rng.randrange(n + 1)
@@ -1131,17 +1131,13 @@ def gen_history(rng, cname=None, nsteps=None, dup=None, tiny=False):
     if cname is None:
         cname = rng.choice(CLASS_MIX)
     g = Gen(rng, cname, dup_labels=(rng.random() < 0.3 if dup is None else dup), tiny=tiny)
-    if len(CLASSES[cname]["taxa"]) > 2 and rng.random() < 0.6:
-        # the square classes with a trait axis drop the trait names in every non-mutating taxa operation (D27):
-        # without trait names a history can go on past such a step
-        g.present["trait"] = [False]
     init = g.init_state()
     n = nsteps if nsteps is not None else rng.randint(1, 10)
     if len(CLASSES[cname]["taxa"]) > 2:
         n = min(n, 6)
     steps = []
     r_layout = rng.random()
-    if r_layout < 0.24 and not CLASSES[cname].get("pure_drops_other"):
+    if r_layout < 0.24:
         # Fortran-ordered / non-contiguous inputs only matter while an operation still reads the arrays the object was
         # built from: begin with non-mutating operations on the initial object
         for _ in range(rng.randint(1, 2)):
@@ -1160,7 +1156,7 @@ def gen_history(rng, cname=None, nsteps=None, dup=None, tiny=False):
 
 
 def _trigger(cname, step, pre=None, present=None):
-    """attributes of a step that can set off one of the known defects of the tree (D14, D27)"""
+    """attributes of a step that can set off one of the known defects of the tree (D14, D14b)"""
     if pre is None and present is not None:
         pre = {kk: {"cols": [0 if p else None for p in present[kk]]} for kk in KINDS}
     d = CLASSES[cname]
@@ -1170,12 +1166,6 @@ def _trigger(cname, step, pre=None, present=None):
     if is_square_k(cname, k) and name in ("insert", "incorp", "concat"):
         return {"site": "square_insert_incorp_concat" if k == "taxa" else "square_trait_insert_incorp_concat",
                 "cond": "single_axis_edit"}
-    if (name in ("insert", "incorp") and "int0d" in step.get("obj", {}) and len(d[k]) == 1 and d[k][0] != 0):
-        return {"site": "insert_zero_dim_array_position", "cond": "non_leading_axis"}
-    if (d.get("pure_drops_other") and name in ("select", "delete", "insert", "adjoin", "concat", "append", "remove",
-                                                "incorp")
-            and (pre is None or any(c is not None for kk in KINDS if kk != k for c in pre[kk]["cols"]))):
-        return {"site": "square_taxa_trait_pure_op", "cond": "other_bundle_labels_dropped"}
     return None
 
 
@@ -1366,7 +1356,7 @@ class C03(Prop):
             "or the input (aliasing).  Axis-specific and axis-generic forms (negative axes included); index forms int / "
             "list / tuple / int64 / int32 / int16 / uint8 ndarray / numpy integer scalar / list of numpy integers / slice / "
             "boolean ndarray / plain list of booleans, with negative entries; numpy.insert positions "
-            "also as boolean ndarray, as UNSORTED list and (rarely: finding D17b) as 0-d ndarray; sort keys as tuple or as "
+            "also as boolean ndarray, as UNSORTED list and as 0-d ndarray; sort keys as tuple or as "
             "one (k, N) ndarray; axis-generic calls also WITHOUT the axis keyword when the last axis is meant (default -1); "
             "operands passed as raw arrays + label keywords, as matrix "
             "objects carrying the labels, or as matrix objects carrying OTHER labels (or none) that explicit label keywords "
@@ -1415,8 +1405,8 @@ class C03(Prop):
                    "label arrays are handed over in the dtypes the constructors document (int64 / float64 / object / bool); an "
                    "integer label array of a narrower dtype in the receiver makes numpy.insert cast the inserted labels to it "
                    "(silent wrap-around, numpy semantics) — not driven",
-                   "C03_REPAIRED=1 switches to repair-validation mode (tree with patches/C03_D14_D27.diff, patch_D14b.diff, "
-                   "patch_D17b.diff applied): block-shaped operands for the square insert / incorp / concat, the repaired model "
+                   "C03_REPAIRED=1 switches to repair-validation mode (tree with patches/C03_D14.diff and C03_D14b.diff "
+                   "applied): block-shaped operands for the square insert / incorp / concat, the repaired model "
                    "of Model/LabelMatRepair.lean, no known finding consulted; never set in a normal run"]
 
 
@@ -1480,11 +1470,29 @@ class C03(Prop):
                        S(name="group", kind="taxa", axis=1, alt_axis=1),
                        S(name="sort", kind="vrnt", keys=None, axis=2, alt_axis=-1),
                        S(name="group", kind="vrnt", axis=2, alt_axis=2)]},
-            # D27: DenseSquareTaxaTraitMatrix non-mutating methods drop the other bundle's labels
-            {"kind": "hist", "cls": "DenseSquareTaxaTraitMatrix", "finding": "D27",
+            # D27 (fixed): DenseSquareTaxaTraitMatrix non-mutating methods dropped the other bundle's labels
+            {"kind": "hist", "cls": "DenseSquareTaxaTraitMatrix", "regression": "D27",
              "init": {"mat": [[[0, 1], [2, 3]], [[4, 5], [6, 7]]], "taxa": {"cols": [[0, 1], [1, 2]], "grp": None},
                       "vrnt": empty_bundle("vrnt"), "trait": {"cols": [[5, 3]], "grp": None}},
              "steps": [S(name="select", kind="taxa", indices=[1, 0])]},
+            {"kind": "hist", "cls": "DenseSquareTaxaTraitMatrix", "regression": "D27",
+             "init": {"mat": [[[0, 1], [2, 3]], [[4, 5], [6, 7]]], "taxa": {"cols": [[0, 1], [2, 1]], "grp": None},
+                      "vrnt": empty_bundle("vrnt"), "trait": {"cols": [[5, 3]], "grp": None}},
+             "steps": [S(name="group", kind="taxa"),
+                       S(name="select", kind="trait", indices=[1, 0], axis=2, alt_axis=-1),
+                       S(name="adjoin", kind="taxa", form="raw", on=0, operand={"mat": [[[70, 71]]], "cols": [[9], [3]]}),
+                       S(name="delete", kind="trait", obj={"int": 0}, axis=2, alt_axis=2, on=0),
+                       S(name="adjoin", kind="trait", axis=2, alt_axis=2, form="raw", on=0,
+                         operand={"mat": [[[80], [81]], [[82], [83]]], "cols": [[7]]}),
+                       S(name="is_grouped", kind="taxa", on=1)]},
+            {"kind": "hist", "cls": "DenseThreeWayDHAdditiveGeneticVarianceMatrix", "regression": "D27",
+             "init": {"mat": [[[[100 * a + 10 * b + c, 500 + 100 * a + 10 * b + c] for c in range(2)] for b in range(2)]
+                              for a in range(2)],
+                      "taxa": {"cols": [[1, 0], [2, 1]], "grp": None}, "vrnt": empty_bundle("vrnt"),
+                      "trait": {"cols": [[4, 3]], "grp": None}},
+             "steps": [S(name="select", kind="taxa", indices=[1, 0, 1]),
+                       S(name="delete", kind="trait", obj={"int": -1}, axis=3, alt_axis=-1, on=0),
+                       S(name="sort", kind="trait", keys=None, axis=3, alt_axis=3, on=0)]},
             # masked genotyping with invert=True on a grouped matrix, asymmetric mask (metadata must follow ~mask)
             {"kind": "gt", "proto": "masked_phased", "invert": True,
              "init": dict(pinit, vrnt={"cols": [[2, 1, 1], [5, 7, 6], [0, 1, 2], None, None, None, None, None,
@@ -1746,8 +1754,8 @@ class C03(Prop):
                        S(name="adjoin", kind="trait", form="raw", operand={"mat": [[[70]]], "cols": [[9]]}, on=0),
                        S(name="remove", kind="trait", obj={"int": 0}, generic=True, axis=-1, alt_axis=-1, on=0),
                        S(name="reorder", kind="trait", indices=[1, 0], generic=True, axis=1, alt_axis=1, on=0)]},
-            # D17b: a 0-d ndarray position on a non-leading axis is not wrapped (fix 74ad0b65 tests int / numpy.integer only)
-            {"kind": "hist", "cls": P, "init": pinit, "finding": "D17b",
+            # D17b (fixed): a 0-d ndarray position on a non-leading axis was not wrapped (fix 74ad0b65 tested int / numpy.integer only)
+            {"kind": "hist", "cls": P, "init": pinit, "regression": "D17b",
              "steps": [S(name="insert", kind="taxa", obj={"int0d": 1}, operand=opd_t2, axis=1, alt_axis=-2, form="raw")]},
             # ... on the leading axis the scalar rule is the block insert: fine
             {"kind": "hist", "cls": G, "init": ginit,
@@ -1897,7 +1905,7 @@ class C03(Prop):
         axes = {kk: CLASSES[cname][kk] for kk in KINDS}
         nd = is_nd(cname)
         ndkw = {"r": len(CLASSES[cname]["taxa"]),
-                "pure_drops_other": bool(CLASSES[cname].get("pure_drops_other")) and not REPAIRED}
+                "pure_drops_other": False}
 
         def step_req(pre, d):
             if nd:
@@ -2543,6 +2551,42 @@ class C03(Prop):
             lambda self, value: taxa_grp_prop.fset(self, None if value is None else numpy.sort(value)),
             taxa_grp_prop.fdel)
 
+        # ---- mutants that undo the repairs of D17b and D27
+        DenseTaxaMatrix_insert_taxa = DenseTaxaMatrix.__dict__["insert_taxa"]
+        DenseVariantMatrix_incorp_vrnt = DenseVariantMatrix.__dict__["incorp_vrnt"]
+
+        def insert_taxa_zero_dim_position_not_wrapped(self, obj, values, taxa=None, taxa_grp=None, **kwargs):
+            if isinstance(obj, numpy.ndarray) and obj.ndim == 0:
+                # labels as now; the data go through numpy.insert with the SCALAR position (moveaxis rule), as before D17b
+                out = DenseTaxaMatrix_insert_taxa(self, [int(obj)], values, taxa=taxa, taxa_grp=taxa_grp, **kwargs)
+                v = values.mat if isinstance(values, DenseTaxaMatrix) else values
+                out._mat = numpy.insert(self._mat, int(obj), v, axis=self.taxa_axis)
+                return out
+            return DenseTaxaMatrix_insert_taxa(self, obj, values, taxa=taxa, taxa_grp=taxa_grp, **kwargs)
+
+        def incorp_vrnt_zero_dim_position_not_wrapped(self, obj, values, **kwargs):
+            if isinstance(obj, numpy.ndarray) and obj.ndim == 0:
+                old = self._mat
+                v = values.mat if isinstance(values, DenseVariantMatrix) else values
+                DenseVariantMatrix_incorp_vrnt(self, [int(obj)], values, **kwargs)
+                self._mat = numpy.insert(old, int(obj), v, axis=self.vrnt_axis)
+                return
+            DenseVariantMatrix_incorp_vrnt(self, obj, values, **kwargs)
+
+        from pybrops.core.mat.DenseSquareTaxaTraitMatrix import DenseSquareTaxaTraitMatrix
+
+        @contextlib.contextmanager
+        def square_taxa_trait_overrides_removed(names):
+            """the class falls back to the methods it inherits from its single-bundle parents (what it did before D27)"""
+            saved = {n: DenseSquareTaxaTraitMatrix.__dict__[n] for n in names if n in DenseSquareTaxaTraitMatrix.__dict__}
+            for n in saved:
+                delattr(DenseSquareTaxaTraitMatrix, n)
+            try:
+                yield
+            finally:
+                for n, f in saved.items():
+                    setattr(DenseSquareTaxaTraitMatrix, n, f)
+
         def lexsort_taxa_rejects_key_matrix(self, keys=None, **kwargs):
             if isinstance(keys, numpy.ndarray):
                 raise TypeError("keys must be a tuple")
@@ -2569,6 +2613,16 @@ class C03(Prop):
              lambda: patch(DenseTraitMatrix, "reorder_trait", reorder_trait_also_along_unlabelled_axis)),
             ("taxa_grp_setter_stores_sorted_copy",
              lambda: patch(DenseTaxaMatrix, "taxa_grp", taxa_grp_sorted_on_assignment)),
+            ("insert_taxa_zero_dim_position_reaches_numpy_as_scalar",
+             lambda: patch(DenseTaxaMatrix, "insert_taxa", insert_taxa_zero_dim_position_not_wrapped)),
+            ("incorp_vrnt_zero_dim_position_reaches_numpy_as_scalar",
+             lambda: patch(DenseVariantMatrix, "incorp_vrnt", incorp_vrnt_zero_dim_position_not_wrapped)),
+            ("square_taxa_trait_taxa_methods_inherited_again",
+             lambda: square_taxa_trait_overrides_removed(["select_taxa", "delete_taxa", "insert_taxa", "adjoin_taxa",
+                                                          "concat_taxa"])),
+            ("square_taxa_trait_trait_methods_inherited_again",
+             lambda: square_taxa_trait_overrides_removed(["select_trait", "delete_trait", "insert_trait", "adjoin_trait",
+                                                          "concat_trait"])),
             ("lexsort_taxa_rejects_key_matrix",
              lambda: patch(DenseTaxaMatrix, "lexsort_taxa", lexsort_taxa_rejects_key_matrix)),
             ("append_taxa_names_cut_to_fixed_width",
